@@ -80,8 +80,9 @@ type b2bMode struct {
 	Server string `json:"server"` // zstd advertised or not
 	Chunk  int    `json:"chunk_size"`
 	Buf    string `json:"upload_buffer"` // slice, reader
-	Pool   string `json:"zstd_pool"`     // bounded, unbounded (both sides)
-	Faults bool   `json:"with_backend_faults"`
+	Pool    string `json:"zstd_pool"` // bounded, unbounded (both sides)
+	Faults  bool   `json:"with_backend_faults"`
+	Primary bool   `json:"full_depth"`
 }
 
 type fixture struct {
@@ -276,9 +277,12 @@ func runB2B(f *fixture, c *b2bcase) (msg, sig, outcome string) {
 					got.Set = []string{}
 				}
 			}
-			if op.Op == "put" && op.Data != "valid" && got.Code != "OK" && want.Code != "OK" {
-				// Two independent failures (bad data, failing backend): which
-				// one is reported is not part of the property.
+			if op.Op == "put" && got.Code != "OK" && want.Code != "OK" {
+				// Invalid data plus a failing backend are two independent
+				// failures, and whether the client sees the server's early
+				// status or a broken stream first depends on goroutine timing
+				// (the timing-controlled variant is sub-check client-scripted):
+				// only "both fail" is compared here.
 				got.Code = want.Code
 			}
 		}
@@ -345,32 +349,38 @@ func b2bModes() []b2bMode {
 	var ms []b2bMode
 	for _, chunk := range []int{1, 100} {
 		for _, buf := range []string{"slice", "reader"} {
-			ms = append(ms, b2bMode{Client: "identity", Server: "identity", Chunk: chunk, Buf: buf, Pool: "bounded", Faults: chunk == 100 && buf == "slice"})
-			ms = append(ms, b2bMode{Client: "zstd", Server: "zstd", Chunk: chunk, Buf: buf, Pool: "bounded", Faults: chunk == 100 && buf == "reader"})
+			ms = append(ms, b2bMode{Client: "identity", Server: "identity", Chunk: chunk, Buf: buf, Pool: "bounded", Faults: chunk == 100 && buf == "slice", Primary: chunk == 1 && buf == "reader"})
+			ms = append(ms, b2bMode{Client: "zstd", Server: "zstd", Chunk: chunk, Buf: buf, Pool: "bounded", Faults: chunk == 100 && buf == "reader", Primary: chunk == 1 && buf == "reader"})
 		}
 	}
 	// The default pool allocates a fresh decoder (8 MiB window) per stream: one mode.
 	ms = append(ms, b2bMode{Client: "zstd", Server: "zstd", Chunk: 100, Buf: "reader", Pool: "unbounded"})
 	// A client that could compress talking to a server that does not advertise zstd.
-	ms = append(ms, b2bMode{Client: "zstd", Server: "identity", Chunk: 100, Buf: "slice", Pool: "bounded", Faults: true})
+	ms = append(ms, b2bMode{Client: "zstd", Server: "identity", Chunk: 100, Buf: "slice", Pool: "bounded", Faults: true, Primary: true})
 	ms = append(ms, b2bMode{Client: "zstd", Server: "identity", Chunk: 100, Buf: "reader", Pool: "bounded"})
 	return ms
 }
 
-func b2bSub(r *ev.Run, name string, depth int) {
-	sub := r.NewSub(name, "venum", fmt.Sprintf(
-		"grpcclients.NewCASBlobAccess <-bufconn-> ByteStream+CAS+Capabilities servers <-> model backend versus the model backend driven directly: every sequence of <=%d operations over "+
-			"{Put valid x 3 digests, Put flipped/short/long data, Get x 3, FindMissing x 8 subsets} (digests: \"abc\" and \"\" under i/j, \"abc\" under i) x "+
-			"11 modes {client identity | client zstd + server advertising zstd (bounded pools; once the default unbounded pool) | client zstd + server not advertising} x chunk size {1,100} x upload buffer {byte slice, reader}; in 3 of the modes also with the backend failing during step {each step}; results, codes, sets and backend content compared after every step", depth))
-	done := sub.Timer()
-	alphabet := b2bAlphabet()
+func b2bSmallAlphabet() []b2bop {
+	a := []b2bop{
+		{Op: "put", D: 0, Data: "valid"}, {Op: "put", D: 1, Data: "valid"},
+		{Op: "put", D: 0, Data: "flipped"}, {Op: "put", D: 1, Data: "long"},
+		{Op: "get", D: 0}, {Op: "get", D: 1},
+	}
+	for m := 0; m < 4; m++ {
+		a = append(a, b2bop{Op: "findmissing", Set: m})
+	}
+	return a
+}
+
+func b2bSeqs(alphabet []b2bop, minLen, maxLen int) [][]b2bop {
 	var seqs [][]b2bop
 	var rec func(cur []b2bop)
 	rec = func(cur []b2bop) {
-		if len(cur) > 0 {
+		if len(cur) >= minLen && len(cur) > 0 {
 			seqs = append(seqs, append([]b2bop(nil), cur...))
 		}
-		if len(cur) == depth {
+		if len(cur) == maxLen {
 			return
 		}
 		for _, a := range alphabet {
@@ -378,20 +388,52 @@ func b2bSub(r *ev.Run, name string, depth int) {
 		}
 	}
 	rec(nil)
-	modes := b2bModes()
+	return seqs
+}
+
+func b2bSub(r *ev.Run, name string, depth int) {
+	sub := r.NewSub(name, "venum", fmt.Sprintf(
+		"grpcclients.NewCASBlobAccess <-bufconn-> ByteStream+CAS+Capabilities servers <-> model backend versus the model backend driven directly, results, codes, sets and backend content compared after every step. "+
+			"Full alphabet (18): {Put valid x 3 digests, Put flipped/short/long data, Get x 3, FindMissing x 8 subsets}, digests \"abc\" and \"\" under i/j, \"abc\" under i; small alphabet (10): the same over the first two digests with 2 invalid Puts. "+
+			"11 modes: {client identity | client zstd + server advertising zstd (bounded pools; once the default unbounded pool) | client zstd + server not advertising} x chunk size {1,100} x upload buffer {byte slice, reader}. "+
+			"Every sequence of <=%d operations: full alphabet in the identity mode chunk 1/reader and the zstd-client-on-identity-server mode; small alphabet in the zstd mode chunk 1/reader (a zstd stream costs an 8 MiB window allocation on each side). "+
+			"Every sequence of <=%d operations: full alphabet in all identity modes and the zstd chunk 1/reader mode, small alphabet in the other zstd modes; in 3 modes these also with the backend failing during each step", depth, depth-1))
+	done := sub.Timer()
+	type work struct {
+		mode b2bMode
+		seq  []b2bop
+	}
+	var items []work
+	full, small := b2bAlphabet(), b2bSmallAlphabet()
+	for _, m := range b2bModes() {
+		zstdPath := m.Client == "zstd" && m.Server == "zstd"
+		var seqs [][]b2bop
+		switch {
+		case zstdPath && m.Primary:
+			seqs = append(b2bSeqs(full, 1, depth-1), b2bSeqs(small, depth, depth)...)
+		case zstdPath:
+			seqs = b2bSeqs(small, 1, depth-1)
+		case m.Primary:
+			seqs = b2bSeqs(full, 1, depth)
+		default:
+			seqs = b2bSeqs(full, 1, depth-1)
+		}
+		for _, s := range seqs {
+			items = append(items, work{m, s})
+		}
+	}
 	pool := &fixturePool{free: map[b2bMode][]*fixture{}}
 	var outcomes ev.Set
 	var st stats
 	var ops int64
 	var opsMu sync.Mutex
-	par.For(len(seqs)*len(modes), func(ix int) {
-		seq := seqs[ix/len(modes)]
-		mode := modes[ix%len(modes)]
+	par.For(len(items), func(ix int) {
+		seq, mode := items[ix].seq, items[ix].mode
 		f := pool.acquire(mode)
 		defer pool.release(f)
 		var evals, nontrivial, nops int64
 		for fs := -1; fs < len(seq); fs++ {
-			if fs >= 0 && !mode.Faults {
+			if fs >= 0 && (!mode.Faults || len(seq) == depth) {
 				break
 			}
 			c := b2bcase{Mode: mode, Ops: seq, FaultStep: fs}
@@ -405,7 +447,7 @@ func b2bSub(r *ev.Run, name string, depth int) {
 			if msg != "" {
 				r.Violate(ev.Violation{Signature: sig, Sub: name, Message: msg, Case: c})
 			}
-			if (ix*5+int(evals))%60013 == 5 {
+			if (ix*5+int(evals))%9973 == 5 {
 				r.Sample(map[string]any{"sub": name, "case": c, "outcome": oc})
 			}
 		}
